@@ -96,17 +96,20 @@ Definition text_locals (desc : list (str * dtype)) (rows : list (list cellv)) (f
    ("listsep", enc_s (o_listsep o)); ("nullvalue", enc_s (o_null o)); ("narrow", PBool (o_narrow o));
    ("unicode", PBool (o_unicode o))].
 
-Theorem text_widths_src : forall (desc : list (str * dtype)) (rows : list (list cellv)) (f0 : str),
-  exists s',
-  PyMini.exec_block call_ref PT {| locals := text_locals desc rows f0; fields := [] |} text_prefix = Ok (Next s') /\
-  lookup "widths" (locals s') =
+Theorem text_widths_full : forall (desc : list (str * dtype)) (rows : list (list cellv)) (f0 : str),
+  exists loc',
+  PyMini.exec_block call_ref PT {| locals := text_locals desc rows f0; fields := [] |} text_prefix =
+    Ok (Next {| locals := loc'; fields := [] |}) /\
+  lookup "widths" loc' =
     Some (PList (map (fun w => PInt (Z.of_nat w)) (table_widths quant numfmt o desc rows))) /\
-  lookup "renderers" (locals s') =
+  lookup "renderers" loc' =
     Some (PList (map rnd (fold_left upd rows (map (fun d => (snd d, [])) desc)))) /\
-  lookup "alignment" (locals s') =
+  lookup "alignment" loc' =
     Some (PList (map (fun d => PInt (match align_of (snd d) with ARight => 1 | ALeft => 0 end)) desc)) /\
-  lookup "headers" (locals s') = Some (PList (map enc_s (map fst desc))) /\
-  lookup "ctx" (locals s') = Some ctx /\ lookup "file" (locals s') = Some (enc_s f0).
+  lookup "headers" loc' = Some (PList (map enc_s (map fst desc))) /\
+  lookup "ctx" loc' = Some ctx /\ lookup "file" loc' = Some (enc_s f0) /\
+  lookup "rows" loc' = Some (PList (map enc_rrow rows)) /\ lookup "boxed" loc' = Some (PBool (o_boxed o)) /\
+  lookup "unicode" loc' = Some (PBool (o_unicode o)).
 Proof.
   intros desc rows f0. rewrite text_prefix_shape. unfold text_stmt, text_prefix, text_locals. cbn [nth].
   set (tvs0 := map (fun d : str * dtype => (snd d, @nil cellv)) desc).
@@ -154,16 +157,35 @@ Proof.
   pose proof (F1 "alignment" eq_refl eq_refl eq_refl eq_refl eq_refl) as Hal.
   pose proof (F1 "narrow" eq_refl eq_refl eq_refl eq_refl eq_refl) as Hnar.
   pose proof (F1 "nullvalue" eq_refl eq_refl eq_refl eq_refl eq_refl) as Hnul.
-  cbn in Hfile, Hhead, Hctx, Hal, Hnar, Hnul. clear F1 E1.
+  pose proof (F1 "rows" eq_refl eq_refl eq_refl eq_refl eq_refl) as Hrows.
+  pose proof (F1 "boxed" eq_refl eq_refl eq_refl eq_refl eq_refl) as Hbox.
+  pose proof (F1 "unicode" eq_refl eq_refl eq_refl eq_refl eq_refl) as Huni.
+  cbn in Hfile, Hhead, Hctx, Hal, Hnar, Hnul, Hrows, Hbox, Huni. clear F1 E1.
   (* widths *)
   rewrite exec_block_cons.
   erewrite exec_assign; [|apply (widths_eval (map fst desc) _ loc1 Hhead Hr1 Hnar Hnul)].
   cbn [bind write locals fields]. rewrite exec_block_nil.
-  eexists. split; [reflexivity|]. cbn [locals].
+  eexists. split; [reflexivity|].
   split.
   { rewrite lookup_update_eq. unfold table_widths. rewrite <- col_states_fold. fold tvs0.
     rewrite map2_map_r, map2_map_l. reflexivity. }
-  step_env. rewrite Hr1, Hal, Hhead, Hctx, Hfile.
+  step_env. rewrite Hr1, Hal, Hhead, Hctx, Hfile, Hrows, Hbox, Huni.
   repeat split. f_equal. f_equal. unfold tvs0. rewrite !map_map. apply map_ext. intros [n t]. rewrite align_prim. reflexivity.
+Qed.
+
+Theorem text_widths_src : forall (desc : list (str * dtype)) (rows : list (list cellv)) (f0 : str),
+  exists s',
+  PyMini.exec_block call_ref PT {| locals := text_locals desc rows f0; fields := [] |} text_prefix = Ok (Next s') /\
+  lookup "widths" (locals s') =
+    Some (PList (map (fun w => PInt (Z.of_nat w)) (table_widths quant numfmt o desc rows))) /\
+  lookup "renderers" (locals s') =
+    Some (PList (map rnd (fold_left upd rows (map (fun d => (snd d, [])) desc)))) /\
+  lookup "alignment" (locals s') =
+    Some (PList (map (fun d => PInt (match align_of (snd d) with ARight => 1 | ALeft => 0 end)) desc)) /\
+  lookup "headers" (locals s') = Some (PList (map enc_s (map fst desc))) /\
+  lookup "ctx" (locals s') = Some ctx /\ lookup "file" (locals s') = Some (enc_s f0).
+Proof.
+  intros desc rows f0. destruct (text_widths_full desc rows f0) as [loc' [E [H1 [H2 [H3 [H4 [H5 [H6 _]]]]]]]].
+  exists {| locals := loc'; fields := [] |}. cbn [locals]. repeat split; assumption.
 Qed.
 End Text.
